@@ -276,6 +276,7 @@ func vxNameN(p string, i int) string {
 // exact-real reading ("values within rounding distance of an edge may fall on either side" is
 // thereby outside the decided part: the formula is shown to be algebraically the stated one).
 //
+//vx:jobs 1
 //vx:mode R
 //vx:solver z3
 //vx:timeout 60000
